@@ -66,3 +66,9 @@ Example C04_nonvacuous_listen_only :
   forallb (fun l => negb (forallb (fun e => negb (is_tx e)) l)) (firstn 3 (skipn 3 (snd (rrun gf_none (ex_node 1) ops)))) = true.
 Proof. vm_compute. repeat split. Qed.
 Print Assumptions C04_nonvacuous_listen_only.
+
+(* the library's group function handlers (Model/GroupFnDefs.v, property C09) satisfy the contract gf_ok: whatever HandleGroupFunction
+   does is a run of the send machine without forwarding, so statements 3 and 5 hold for the node as shipped (gf := gf_lib) *)
+From N2kV Require Model.GroupFnDefs Proofs.GroupFnContractsB.
+Theorem C04_gf_lib_ok : GateSpec.gf_ok GroupFnDefs.gf_lib.  Proof. exact GroupFnContractsB.gf_lib_gate_ok. Qed.
+Print Assumptions C04_gf_lib_ok.
